@@ -30,6 +30,7 @@ fn prop_static(id: &str) -> Option<&'static str> {
 fn main() {
     let args: Vec<String> = std::env::args().skip(1).collect();
     engine::guard::install_panic_hook();
+    engine::guard::install_fatal_signal_handler();
     let vd = verif_dir();
     if args.is_empty() {
         eprintln!("usage: rtcp-mc <Cxx> <quick|thorough> | replay <file> | selftest");
